@@ -57,6 +57,7 @@ def run(ctx):
     for name, obj, g in named_constants(cirq, mods):
         rows.append(('named:' + name, g, obj))
     gate_stream(ctx, cirq, mods, rows)
+    gate_stream(ctx, cirq, mods, used_gate_rows(ctx, cirq, mods, rows), label='used')
     # channels of the library: Kraus / mixture / superoperator vs the documented Kraus operators (shared with C09)
     from . import c09
     checks = []
@@ -66,6 +67,60 @@ def run(ctx):
     more_stream(ctx, cirq, mods)
 
 
+def exercise(cirq, gate, other):
+    """Read-only use of a gate object: every protocol that looks at it, with every array it hands out overwritten in place (what a
+    caller is free to do with a result).  None of this may change what the object means."""
+    def scribble(x):
+        if isinstance(x, np.ndarray):
+            if x.flags.writeable and x.size:
+                x[...] = 7
+        elif isinstance(x, (list, tuple)):
+            for y in x:
+                scribble(y)
+    q = cirq.LineQid.for_gate(gate)
+    shape = cirq.qid_shape(gate)
+    battery = [
+        lambda: cirq.unitary(gate, None), lambda: cirq.kraus(gate, None), lambda: cirq.mixture(gate, None), lambda: cirq.unitary(gate.on(*q), None),
+        lambda: cirq.equal_up_to_global_phase(gate, other), lambda: cirq.equal_up_to_global_phase(other, gate), lambda: cirq.equal_up_to_global_phase(gate, gate),
+        lambda: cirq.approx_eq(gate, other), lambda: gate == other, lambda: hash(gate), lambda: repr(gate), lambda: str(gate),
+        lambda: gate in cirq.GateFamily(other), lambda: gate in cirq.GateFamily(type(other)), lambda: gate.on(*q) in cirq.Gateset(other, type(gate)),
+        lambda: cirq.Gateset(type(gate)).validate(cirq.Circuit(gate.on(*q))), lambda: cirq.has_unitary(gate), lambda: cirq.trace_distance_bound(gate),
+        lambda: cirq.decompose(gate.on(*q)), lambda: cirq.decompose_once(gate.on(*q), None), lambda: cirq.pauli_expansion(gate, default=None),
+        lambda: cirq.is_parameterized(gate), lambda: cirq.resolve_parameters(gate, {}), lambda: cirq.circuit_diagram_info(gate, default=None),
+        lambda: cirq.commutes(gate, gate, default=None), lambda: cirq.has_stabilizer_effect(gate), lambda: gate**1, lambda: gate**-1, lambda: cirq.inverse(gate, None),
+        lambda: cirq.apply_unitary(gate, cirq.ApplyUnitaryArgs.for_unitary(qid_shape=shape), None), lambda: cirq.Circuit(gate.on(*q)).unitary(),
+        lambda: cirq.phase_by(gate, 0.25, 0, default=None), lambda: cirq.to_json(gate), lambda: cirq.qasm(gate.on(*q), default=None),
+        lambda: cirq.Simulator().simulate(cirq.Circuit(gate.on(*q))).final_state_vector,
+    ]
+    for f in battery:
+        try:
+            scribble(f())
+        except Exception:
+            pass
+
+
+def used_gate_rows(ctx, cirq, mods, rows):
+    """The same comparison with the model for gate objects that have been USED (queried by every read-only protocol, results overwritten
+    by the caller): every named constant of the library (process-wide singletons) and a few instances of every family."""
+    out = []
+    seen = {}
+    for fam, g, obj in rows:
+        k = seen.get(fam, 0)
+        if not fam.startswith('named:') and k >= (3 if ctx.tier == 'quick' else 12):
+            continue
+        seen[fam] = k + 1
+        try:
+            gate = obj if obj is not None else g.cirq_gate(cirq, mods)
+            other = gates.draw(ctx.rng, g.fam).cirq_gate(cirq, mods) if g.fam not in ('Ctrl',) else gate
+            if cirq.qid_shape(other) != cirq.qid_shape(gate):
+                other = gate
+            exercise(cirq, gate, other)
+        except Exception:
+            continue
+        out.append((fam + ':after-use', g, gate))
+    return out
+
+
 def impl_unitary(cirq, mods, g, obj):
     gate = obj if obj is not None else g.cirq_gate(cirq, mods)
     u = cirq.unitary(gate)
@@ -73,7 +128,7 @@ def impl_unitary(cirq, mods, g, obj):
     return gate, np.asarray(u, dtype=complex), shape
 
 
-def gate_stream(ctx, cirq, mods, rows):
+def gate_stream(ctx, cirq, mods, rows, label='gates'):
     lines, kept = [], []
     for fam, g, obj in rows:
         try:
@@ -94,7 +149,7 @@ def gate_stream(ctx, cirq, mods, rows):
     text = gates.COQ_HEADER + 'Definition rows : list (gate (K:=FC) * matrix (K:=FC)) := [\n' + ';\n'.join(lines) + '].\n'
     text += f'Eval vm_compute in failing (fun c => fcll_close {TOL} (gate_model FOps (fst c)) (snd c)) rows.\n'
     text += f'Eval vm_compute in failing (fun c => fcll_close {TOL} (gate_spec FOps (fst c)) (snd c)) rows.\n'
-    vals = coq.parse_evals(coq.coq_eval(f'c03_gates_{ctx.seed}', text))
+    vals = coq.parse_evals(coq.coq_eval(f'c03_{label}_{ctx.seed}', text))
     bad_model, bad_spec = coq.parse_nat_list(vals[0]), coq.parse_nat_list(vals[1])
     for idx in sorted(set(bad_model) | set(bad_spec)):
         fam, g, obj, u = kept[idx]
@@ -128,6 +183,18 @@ def more_stream(ctx, cirq, mods):
             ('ArithmeticGate', lambda: gm.arith_rows(cirq, ctx.rng, per)), ('Clifford', lambda: gm.clifford_rows(cirq, ctx.rng)),
             ('DensePauliString', lambda: gm.dense_rows(cirq, ctx.rng, per)), ('UniformSuperposition', lambda: gm.uniform_rows(cirq, ctx.rng, per)),
             ('channels', lambda: gm.channel_rows(cirq, ctx.rng, per)), ('named', lambda: gm.named_rows(cirq, mods))]
+
+    def after_use(rows_fn):
+        # the library's Clifford objects and named constants once more, after every one of them was used read-only (see exercise)
+        objs = list(cirq.SingleQubitCliffordGate.all_single_qubit_cliffords) + [getattr(cirq.CliffordGate, n) for n in ('I', 'X', 'Y', 'Z', 'H', 'S', 'CNOT', 'CZ', 'SWAP') if hasattr(cirq.CliffordGate, n)]
+        for o in objs:
+            exercise(cirq, o, o)
+        out = rows_fn()
+        for r in out:
+            r['key'] = list(r['key']) + ['after-use']
+            r['what'] = r['what'] + ' (after the objects were used read-only, results overwritten by the caller)'
+        return out
+    gens += [('Clifford after use', lambda: after_use(lambda: gm.clifford_rows(cirq, ctx.rng))), ('named after use', lambda: after_use(lambda: gm.named_rows(cirq, mods)))]
     for name, gen in gens:
         try:
             rows += gen()
